@@ -943,6 +943,9 @@ def _replay_diag(case, clause, model, seed, trials=36):
 
 
 UNITS = [PairMatrix(), ParticipationRatio(), Diagonalize()]
+# callee contracts of other properties used at call sites: their units are re-verified with this check
+from contracts.common import callee_units as _callee_units   # noqa: E402
+UNITS = UNITS + _callee_units([('C02', None), ('C12', None)], UNITS)
 
 
 def lemmas():
